@@ -187,7 +187,7 @@ func newVBuilder() *vBuilder {
 
 func vCopyChange(c *Change) *Change {
 	n := &Change{Id: c.Id, SnapshotId: c.SnapshotId, IsSnapshot: c.IsSnapshot, AclHeadId: c.AclHeadId, Identity: c.Identity,
-		Timestamp: c.Timestamp, Data: c.Data, IsDerived: c.IsDerived, ReadKeyId: c.ReadKeyId, DataType: c.DataType}
+		Timestamp: c.Timestamp, Data: c.Data, IsDerived: c.IsDerived, ReadKeyId: c.ReadKeyId, DataType: c.DataType, ParentId: c.ParentId}
 	n.PreviousIds = append([]string{}, c.PreviousIds...)
 	return n
 }
